@@ -133,3 +133,37 @@ def law_programs():
                      Core("print", [Id("m")]), MCall(Id("m"), "extend", [Map([perm[2], "zz"], [Int(7), Int(6)])]), Core("print", [Id("m")]),
                      IAsg(Id("m"), Int(1), Tuple([Str("new"), Int(5)])), Core("print", [Id("m")]), MCall(Id("m"), "sort", []),
                      Core("print", [Id("m")]), Core("print", [MCall(MCall(Id("m"), "keys", []), "to_tuple", [])]), Str("end")])
+
+
+# ---- nesting x copy matrix ------------------------------------------------------------------------------------------
+def copy_matrix():
+    """A mutable container `inn` wrapped in every nest of lists / tuples / maps of depth 1..3, derived by alias /
+    copy / deep_copy, then mutated through `inn` (deep) or at the top level; both values printed."""
+    wraps = {"L": lambda e: List([e, Int(0)]), "T": lambda e: Tuple([e, Int(0)]), "M": lambda e: Map(["a"], [e])}
+    for depth in (1, 2, 3):
+        for shape in itertools.product("LTM", repeat=depth):
+            for inner in ("list", "map"):
+                for derive in ("alias", "copy", "deep_copy"):
+                    for site in ("inner", "top"):
+                        reset_ids()
+                        inn = List([Int(1), Int(2)]) if inner == "list" else Map(["k1"], [Int(1)])
+                        e = Id("inn")
+                        for w in reversed(shape):
+                            e = wraps[w](e)
+                        xs = [Asg("inn", inn), Asg("x", e)]
+                        if derive == "alias":
+                            xs.append(Asg("y", Id("x")))
+                        else:
+                            xs.append(Asg("y", Core(derive, [Id("x")])))
+                        if site == "inner":
+                            xs.append(MCall(Id("inn"), "push", [Int(7)]) if inner == "list" else MCall(Id("inn"), "insert", [Str("z"), Int(7)]))
+                        else:
+                            top = shape[0]
+                            if top == "L":
+                                xs.append(MCall(Id("x"), "push", [Int(8)]))
+                            elif top == "M":
+                                xs.append(MCall(Id("x"), "insert", [Str("q"), Int(8)]))
+                            else:
+                                continue
+                        xs += [Core("print", [Id("x")]), Core("print", [Id("y")]), Core("print", [Cmp(["=="], [Id("x"), Id("y")])]), Str("end")]
+                        yield Block(xs)
